@@ -461,3 +461,76 @@ def rule_scratch(ctx: Ctx, prog: Program) -> None:
 
 def _norm(src: str) -> str:
     return "".join(src.split())
+
+
+# ------------------------------------------------------------------------------------------ R-HALL-PRECOND
+def rule_hall_precondition(ctx: Ctx, prog: Program) -> None:
+    """The capacity filtering of gcc (Quimper et al.) merges an interval into its neighbour when its remaining capacity *reaches* zero; an
+    interval whose capacity is zero from the start is never merged and never refuted, and the pointer chases (path_set) then walk chains
+    that do not contain their end marker: the call never returns.  The algorithm therefore has a precondition: no variable bound sits on
+    a value whose capacity (upper bound) is zero.  Rule: in compute_domains_gcc, before the bounds are sorted and ranked (update_bounds),
+    every variable's MIN is moved right and its MAX moved left past zero-capacity values (skip_non_null_elements_right/left on the
+    partial sums of the CAPACITIES), with a failure when they cross."""
+    ctx.rule("R-HALL-PRECOND")
+    fn = prog.func(f"{prog.package}.propagators.gcc_propagator", "compute_domains_gcc")
+    ctx.fn(fn.fq)
+    MIN, MAX, PI = prog.C("MIN"), prog.C("MAX"), prog.C("PROP_INCONSISTENCY")
+    it = Interp(prog, inline_filter=_never)
+    res = it.run(fn)
+    dom = fn.params[0]
+    n_reach = 0
+    bad: List[str] = []
+    for r in res:
+        evs = r.state.trace
+        ub = [i for i, e in enumerate(evs) if e.kind == "call" and e.name and e.name.split(":")[-1].endswith("update_bounds")]
+        if not ub:
+            continue
+        n_reach += 1
+        # the partial sums of the capacities: init_partial_sum(..., values = parameters[1 + m:])  (open-ended slice = the upper bounds)
+        cap_roots = set()
+        for e in evs[: ub[0]]:
+            if e.kind == "call" and e.name and e.name.split(":")[-1].endswith("init_partial_sum") and len(e.args) == 3:
+                v = as_view(e.args[2])
+                if isinstance(v, View) and len(v.idx) == 1 and isinstance(v.idx[0], tuple) and v.idx[0][0] == "slice" and v.idx[0][2] is None and e.ret is not None:
+                    cap_roots.add(as_view(e.ret).root)
+        okk = {"MIN": False, "MAX": False, "fail": False, "all": False}
+        for i, e in enumerate(evs[: ub[0]]):
+            if e.kind != "loop" or e.loop is None or e.loop.kind != "for":
+                continue
+            l = e.loop
+            rng = l.iter_value
+            covers = getattr(rng, "start", None) == ZERO and isinstance(getattr(rng, "stop", None), Aff) and rng.stop == Aff.atom(("len", dom, ()))
+            for bp in l.paths:
+                for x in bp.events:
+                    if x.kind == "store" and x.root == dom and len(x.idx) == 2 and x.idx[0] == l.index and isinstance(x.idx[1], Aff) and x.idx[1].is_const():
+                        b = "MIN" if x.idx[1].c == MIN else "MAX"
+                        want = "skip_non_null_elements_right" if b == "MIN" else "skip_non_null_elements_left"
+                        src = [c for c in bp.events if c.kind == "call" and c.name and c.name.split(":")[-1].endswith(want) and c.ret is not None
+                               and as_view(c.ret) == as_view(x.value) if isinstance(as_view(x.value), View)]
+                        src = src or [c for c in bp.events if c.kind == "call" and c.name and c.name.split(":")[-1].endswith(want)
+                                      and it.scalar(bp.state, c.ret) == (x.value if isinstance(x.value, Aff) else it.scalar(bp.state, x.value))]
+                        for c in src:
+                            a0 = as_view(c.args[0])
+                            a1 = it.value_at(bp.state, c.hpos, c.args[1])
+                            if isinstance(a0, View) and a0.root in cap_roots and a1 == Aff.atom(("init", dom, (l.index, K(MIN if b == "MIN" else MAX)))) or \
+                                    (isinstance(a0, View) and a0.root in cap_roots and isinstance(a1, Aff) and any(
+                                        isinstance(t, tuple) and t[0] in ("init", "hav") and (t[1] if t[0] == "init" else t[2]) == dom for t in atoms_in(a1))):
+                                okk[b] = True
+                                okk["all"] = okk["all"] or covers
+                if bp.outcome == "return" and it.scalar(bp.state, bp.value) == K(PI):
+                    okk["fail"] = True
+        if not (okk["MIN"] and okk["MAX"] and okk["fail"] and okk["all"]):
+            missing = [k for k in ("MIN", "MAX") if not okk[k]]
+            bad.append(("bounds not moved off zero-capacity values: " + "/".join(missing)) if missing else
+                       ("no failure when the moved bounds cross" if not okk["fail"] else "the loop does not cover every variable"))
+    if n_reach == 0:
+        raise AnalysisError(f"{fn.fq}: no path reaches update_bounds")
+    if bad:
+        ctx.violation("R-HALL-PRECOND", fn.path, fn.name, "zero-capacity-bounds", fn.loc(),
+                      f"compute_domains_gcc ranks and filters the bounds without first moving every variable's bounds off the values whose capacity is "
+                      f"zero ({bad[0]}): an interval of capacity zero is never merged nor refuted by the Hall-interval filtering and path_set then walks "
+                      "a pointer chain that does not contain its end marker -- the call never returns (e.g. domains [(2,2),(3,4),(3,4),(3,3),(2,4)], "
+                      "parameters [2, 0,0,1, 1,0,3])")
+    else:
+        ctx.ok("R-HALL-PRECOND", "compute_domains_gcc: every bound is moved off zero-capacity values (failure when they cross) before ranking",
+               sample={"paths_reaching_update_bounds": n_reach})
